@@ -110,7 +110,38 @@ func montLimbsN(v *big.Int) [4]uint64 { return oracle.Limbs(oracle.ToMont(v, big
 
 // repZ picks a Z for a representative: class names are for evidence.
 func repZ(r *gen.Rng) (*big.Int, string) {
-	switch r.Intn(7) {
+	switch r.Intn(9) {
+	case 7, 8:
+		// Z whose STORED (Montgomery-domain) limbs have a special shape: only the high half
+		// of every limb set, a single non-zero limb, all-ones limbs, a lone bit.  Predicates
+		// and conversions that look at part of a limb (a narrowing cast, a dropped carry)
+		// misjudge exactly such representatives.
+		var l [4]uint64
+		switch r.Intn(5) {
+		case 0:
+			for j := range l {
+				l[j] = (r.U64() >> 32) << 32
+			}
+		case 1:
+			l[r.Intn(4)] = r.U64() | 1
+		case 2:
+			l[r.Intn(4)] = uint64(1) << uint(r.Intn(64))
+		case 3:
+			for j := range l {
+				l[j] = ^uint64(0)
+			}
+			l[3] = r.U64() >> 1
+			l[0] = r.U64()
+		default:
+			for j := range l {
+				l[j] = uint64(r.Intn(3)) << 32
+			}
+		}
+		raw := oracle.FromLimbs(l)
+		if raw.Sign() == 0 || raw.Cmp(bigP) >= 0 {
+			return big.NewInt(7), "Z=7"
+		}
+		return oracle.FromMont(raw, bigP), "Z=montgomery-limb-pattern"
 	case 0:
 		return big.NewInt(1), "Z=1"
 	case 1:
